@@ -27,14 +27,18 @@ MANIFEST = {
                  'granularity inside the package with at most c preemptions '
                  '(iterative preemption bounding, CHESS scheme); per-thread '
                  'results compared with sequential runs',
-    'text': 'For 16 templates (one per block tag, incl. sort_expr with '
-            'per-thread keys, batched in, try/raise, tree) two real threads '
+    'text': 'For 18 templates (one per block tag, incl. sort_expr with '
+            'per-thread keys, batched in, with only, try/raise, tree) two real threads '
             'render the same template object with thread-specific '
             'namespaces under a scheduler that owns every line event in '
             'src/DocumentTemplate and src/TreeDisplay: all schedules with '
             '<= 1 preemption (steady state: all templates; compile race: 5 '
-            'templates in quick, all in thorough) and <= 2 preemptions for '
-            'the templates that write shared objects (thorough); compile '
+            'templates in quick, all in thorough); all schedules with <= 2 '
+            'preemptions whose preemption sites lie in the source files of '
+            'the tag itself (quick: 11 templates, small tag files; '
+            'thorough: also DT_In / DT_InSV / TreeTag / DT_String) and, in '
+            'thorough, all schedules with <= 2 preemptions anywhere for the '
+            '12 templates with short renders; compile '
             'race (COOKLOCK replaced by a scheduler lock; blocked = '
             'disabled, nothing enabled = deadlock), plus 3 threads with <= '
             '1 preemption (steady).  In the compile family a state invariant '
@@ -119,6 +123,10 @@ TEMPLATES = {
     'tiny': 'a<dtml-var x>b',
     'with': '<dtml-with o><dtml-var x></dtml-with><dtml-with "m" mapping>'
             '<dtml-var x></dtml-with>',
+    'withonly': '<dtml-with o only><dtml-var x><dtml-var y missing="-">'
+                '</dtml-with><dtml-var y>',
+    'unless': '<dtml-unless c>u<dtml-var x></dtml-unless><dtml-comment>'
+              '<dtml-var x></dtml-comment>&dtml.url_quote-y;',
     'let': '<dtml-let z=x w="y"><dtml-var z><dtml-var w></dtml-let>',
     'try': '<dtml-try><dtml-var x><dtml-var boom><dtml-except Boom>E'
            '<dtml-var error_value><dtml-else>no</dtml-try>',
@@ -208,9 +216,40 @@ def baseline(name, nthreads):
     return out
 
 
+# preemption sites for the site-restricted bound-2 exploration: both
+# preemptions fall on lines of the tag's own (small) source files
+SMALL_SITES = {
+    'var': ['DT_Var.py', 'html_quote.py', 'ustr.py'],
+    'expr': ['DT_Util.py', 'ustr.py'],
+    'with': ['DT_With.py', 'DT_Util.py'],
+    'withonly': ['DT_With.py', 'DT_Util.py'],
+    'let': ['DT_Let.py', 'DT_Util.py'],
+    'try': ['DT_Try.py', 'ustr.py'],
+    'raise': ['DT_Try.py', 'DT_Raise.py', 'ustr.py'],
+    'call': ['DT_Util.py', 'DT_Return.py'],
+    'inbatch': ['DT_InSV.py', 'DT_Util.py'],
+    'inbatchsortexpr': ['DT_InSV.py', 'DT_Util.py'],
+    'in': ['DT_Util.py'],
+}
+BIG_SITES = {
+    'in': ['DT_In.py', 'DT_InSV.py', 'DT_Util.py'],
+    'insortexpr': ['DT_In.py', 'DT_InSV.py', 'DT_Util.py'],
+    'inbatch': ['DT_In.py', 'DT_InSV.py', 'DT_Util.py'],
+    'inbatchsortexpr': ['DT_In.py', 'DT_InSV.py', 'DT_Util.py'],
+    'tree': ['TreeTag.py'],
+    'sub': ['DT_String.py'],
+}
+SMALL = ('var', 'expr', 'if', 'tiny', 'with', 'withonly', 'unless', 'let',
+         'try', 'raise', 'call', 'insort')
+
+
 def cases(tier):
     names = list(TEMPLATES)
     shards = 8
+    for name, sites in SMALL_SITES.items():
+        for k in range(4):
+            yield {'tmpl': name, 'fam': 'steady', 'threads': 2, 'bound': 2,
+                   'shard': [k, 4], 'sites': sites}
     quick_compile = ('var', 'if', 'insortexpr', 'with', 'try')
     for name in names:
         for fam in ('steady', 'compile'):
@@ -223,14 +262,19 @@ def cases(tier):
                        'shard': [k, n]}
     if tier == 'thorough':
         shards = 48
-        for name in WRITERS:
+        for name in SMALL:
             for k in range(shards):
                 yield {'tmpl': name, 'fam': 'steady', 'threads': 2,
                        'bound': 2, 'shard': [k, shards]}
-        for name in ('insortexpr', 'var'):
+        for name, sites in BIG_SITES.items():
+            for k in range(shards):
+                yield {'tmpl': name, 'fam': 'steady', 'threads': 2,
+                       'bound': 2, 'shard': [k, shards], 'sites': sites}
+        for name in ('tiny', 'var', 'expr', 'call'):
             for k in range(shards):
                 yield {'tmpl': name, 'fam': 'compile', 'threads': 2,
-                       'bound': 2, 'shard': [k, shards]}
+                       'bound': 2, 'shard': [k, shards],
+                       'sites': ['DT_String.py']}
         for name in ('insortexpr', 'if', 'with', 'try'):
             for k in range(16):
                 yield {'tmpl': name, 'fam': 'steady', 'threads': 3,
@@ -389,8 +433,9 @@ def run(case):
     res.states = len(switch_sites) + 1
     res.transitions = points[0]
     res.traces = stats['schedules']
-    res.count('schedules:%s:c%d:t%d' % (fam, case['bound'], nthreads),
-              stats['schedules'])
+    res.count('schedules:%s:c%d%s:t%d' % (
+        fam, case['bound'], '-sites' if case.get('sites') else '', nthreads),
+        stats['schedules'])
     res.count('distinct-outcomes:%s:%s' % (name, fam), len(outcomes))
     if case['shard'][0] == 0:
         res.count('steps-per-thread:%s:%s' % (name, fam),
@@ -399,7 +444,8 @@ def run(case):
                   'threads': nthreads, 'bound': case['bound'],
                   'schedules_in_this_shard': stats['schedules'],
                   'points_per_execution': stats['points_max']}
-    res.outcome = '%s:c%d:t%d' % (fam, case['bound'], nthreads)
+    res.outcome = '%s:c%d%s:t%d' % (fam, case['bound'], '-sites'
+                                    if case.get('sites') else '', nthreads)
     return res
 
 
@@ -419,8 +465,14 @@ def finalize(tier, agg):
                                 'compile for %s' % (
                                     'all' if tier == 'thorough' else
                                     'var, if, insortexpr, with, try') + (
-                                    '; c=2 for %s (steady) and insortexpr, '
-                                    'var (compile); 3 threads c=1 for 4 '
-                                    'templates (steady)'
-                                    % ', '.join(WRITERS)
-                                    if tier == 'thorough' else '')}
+                                    '; c=2 unrestricted for %s (steady); '
+                                    'c=2 with sites in the tag files for '
+                                    '%s (steady) and in DT_String.py for '
+                                    'tiny, var, expr, call (compile); 3 '
+                                    'threads c=1 for 4 templates (steady)'
+                                    % (', '.join(SMALL),
+                                       ', '.join(BIG_SITES))
+                                    if tier == 'thorough' else
+                                    '; c=2 with both preemption sites in '
+                                    'the tag files for %s (steady)'
+                                    % ', '.join(SMALL_SITES))}
